@@ -17,10 +17,44 @@ def norm_container(c):
     return c.split(',')[0]
 
 
+def large_conflict_terms(fb):
+    """terms under which LargeMicroStep::step records a pair of transitions as conflicting (the lazily filled cache)"""
+    st = fb.fn('uscxml::LargeMicroStep::step')
+    site = None
+    for n in st.walk():
+        if n['k'] == 'IfStmt':
+            kids = [c for c in n['c'] if c is not None]
+            if len(kids) > 1 and any(x['k'] == 'CXXMemberCallExpr' and x.get('callee', {}).get('q', '').endswith('::insert') and any(
+                    y['k'] == 'MemberExpr' and y.get('ref', {}).get('name') == 'conflicting' for y in sub(x['c'][0])) for x in sub(kids[1])):
+                if site is None or sum(1 for _ in sub(n)) < sum(1 for _ in sub(site)):
+                    site = n
+    if site is None:
+        raise AnalysisBroken('LargeMicroStep::step: the test that records conflicting transitions was not found')
+    cond = [c for c in site['c'] if c is not None][0]
+    terms = set()
+    disj = []
+    stack = [strip(cond)]
+    while stack:
+        x = strip(stack.pop())
+        if x['k'] == 'BinaryOperator' and x.get('op') == '||':
+            stack += [x['c'][0], x['c'][1]]
+        else:
+            disj.append(x)
+    for d in disj:
+        names = [y['ref']['name'] for y in sub(d) if y['k'] == 'MemberExpr']
+        if 'ancestors' in names and 'source' in names and any(y.get('callee', {}).get('q', '').endswith('::find') for y in sub(d)):
+            terms.add('source-ancestry#%d' % (1 + sum(1 for t in terms if t.startswith('source-ancestry'))))
+        elif 'first' in names and 'second' in names:
+            terms.add('exit-overlap#%d' % (1 + sum(1 for t in terms if t.startswith('exit-overlap'))))
+        else:
+            terms.add('other<%s>' % fb.text(d)[:40])
+    return terms, site
+
+
 def run(rep, tier):
     rep.rule('R03.1', 'sibling agreement: for every skeleton fact computed for one engine the other engine has the same fact -- phase-protocol verdict and event alphabet, iteration directions per site, exact _flags relation (set of (flags, return, events, flags\') tuples), monitor-protocol verdict, containment status of every callback call, run-state members covered by reset(), serialization key set')
     rep.rule('R03.3', 'isInFinal treats pseudo-states as neutral: a history child of a parallel does not keep the parallel from being final')
-    rep.rule('R03.4', 'the fast engine\'s precomputed conflict matrix uses all terms of the conflict definition (same source, source ancestry both ways, exit-set overlap both ways)')
+    rep.rule('R03.4', 'both engines use all terms of the conflict definition: the fast engine\'s precomputed matrix (same source, source ancestry both ways, exit-set overlap both ways) and the large engine\'s lazily filled cache (source ancestry both ways, exit-set overlap both ways)')
     rep.rule('R03.5', 'both engines compute the transition domain with the same (specified) quantifier shape: source only if internal, compound and all targets inside; else nearest compound ancestor containing all targets')
     rep.rule('R03.2', 'registration: the factory registers one instance of each engine class, their names are distinct ("large", "fast"), the default engine of InterpreterImpl::init is a registered class')
     rep.assume('equality of traces per input is not decided; agreement is established on structure')
@@ -188,6 +222,10 @@ def run(rep, tier):
             terms.add('exit-overlap#%d' % (1 + sum(1 for t in terms if t.startswith('exit-overlap'))))
     want_terms = {'same-source', 'source-ancestry#1', 'source-ancestry#2', 'exit-overlap#1', 'exit-overlap#2'}
     rep.check(terms == want_terms, 'R03.4', 'FastMicroStep::init|conflict terms', fi_.where(), 'the conflict matrix marks a pair as conflicting for %s; Predicates.cpp::conflicts: same source, source ancestry both ways, exit sets intersect; missing: %s' % (sorted(terms), sorted(want_terms - terms)))
+
+    lt, lsite = large_conflict_terms(fb)
+    want_l = {'source-ancestry#1', 'source-ancestry#2', 'exit-overlap#1'}
+    rep.check(lt == want_l, 'R03.4', 'LargeMicroStep::step|conflict terms', locstr(lsite), 'the large engine records a pair as conflicting for %s (same source is excluded by taking one transition per state); missing: %s' % (sorted(lt), sorted(want_l - lt)))
 
     # ---- R03.2
     reg = []
